@@ -176,6 +176,15 @@ func gatewaySide(r *vkit.R, g *vkit.Rand) {
 			names = append(names, n)
 		}
 	}
+	// names as they occur for real upstreams and at the edge of what a path segment may be: upper case, host:port, an IPv6
+	// literal with port, 253 characters, non-ASCII, a single character, dots and dashes only
+	odd := map[string]bool{}
+	for _, n := range []string{"Cluster-A.Example.COM", "cluster-a.example.com", "cluster-a.example.com:6443", "[2001:db8::1]:6443", strings.Repeat("a", 253), "集群-1.example.com", "x", "a:b:c", "-.-", "UPPER_lower.1"} {
+		if !seen[n] {
+			seen[n], odd[n] = true, true
+			names = append(names, n)
+		}
+	}
 	// the election's table: every shard led by one of the servers; all servers publish the same table
 	b.deploy(g, g.Range(3, 5), names)
 	for _, ts := range b.https {
@@ -184,14 +193,22 @@ func gatewaySide(r *vkit.R, g *vkit.Rand) {
 
 	ctx, cancel := context.WithCancel(context.Background())
 	defer cancel()
-	b.cs = clientsets.NewClientSetsWithRestConfig(ctx, strings.Join(b.urls, ","), "verif", &rest.Config{Host: b.urls[0], QPS: 10000, Burst: 10000})
+	// two gateways (two instances of the real client sets, each with its own instance id) against the same fleet
+	gws := []clientsets.ClientSets{
+		clientsets.NewClientSetsWithRestConfig(ctx, strings.Join(b.urls, ","), "verif", &rest.Config{Host: b.urls[0], QPS: 10000, Burst: 10000}),
+		clientsets.NewClientSetsWithRestConfig(ctx, strings.Join(b.urls, ","), "verif-second", &rest.Config{Host: b.urls[1], QPS: 10000, Burst: 10000}),
+	}
+	b.cs = gws[0]
+	r.Set("gw_gateways", len(gws))
 	ok := vkit.WaitFor(20*time.Second, func() bool {
-		if _, err := b.cs.ShardIDFor("x"); err != nil {
-			return false
-		}
-		for _, n := range names {
-			if _, err := b.cs.ClientFor(n); err != nil {
+		for _, gw := range gws {
+			if _, err := gw.ShardIDFor("x"); err != nil {
 				return false
+			}
+			for _, n := range names {
+				if _, err := gw.ClientFor(n); err != nil {
+					return false
+				}
 			}
 		}
 		return true
@@ -206,40 +223,53 @@ func gatewaySide(r *vkit.R, g *vkit.Rand) {
 	var seq int64
 	// round judges every name (all of them have been looked up before, under whatever shard counts were announced earlier)
 	round := func(phase, label string) {
-		for _, n := range names {
-			ref := refShard(n, b.N)
-			sid, err := b.cs.ShardIDFor(n)
-			r.Eval(1)
-			if err != nil || sid != ref {
-				r.Violation("C13/gateway/shard-id-differs/"+phase, fmt.Sprintf("ClientSets.ShardIDFor(%q) = %d (err %v) while the limiter fleet announces %d shards (%s; shard counts announced so far %v), FNV-1a/32 mod N = %d", n, sid, err, b.N, label, shardCounts, ref),
-					map[string]interface{}{"name": n, "N": b.N, "ShardIDFor": sid, "reference": ref, "phase": label, "shardCountsAnnounced": shardCounts})
-			}
-			want := b.table[ref]
-			for _, op := range []string{"allocate", "acquire"} {
-				seq++
-				arrived, err, rerr := b.call(op, n, seq)
-				if rerr != nil {
-					r.Count("gw_client_unresolved", 1)
-					continue
+		defer func() { b.cs = gws[0] }()
+		for gi, gw := range gws {
+			b.cs = gw
+			for ni, n := range names {
+				if gi > 0 && ni%3 != 0 && !odd[n] {
+					continue // the second gateway: every third name and all odd ones
 				}
-				r.Count("gw_requests_judged", 1)
-				r.Distinct(vkit.Hash64("gw", label, n, op))
-				if len(arrived) != 1 || arrived[0] != want {
-					r.Violation("C13/gateway/request-at-wrong-server/"+phase+"/"+op, fmt.Sprintf("%s for upstream %q (shard %d of %d, %s): the leader table names server %d (%s), the request arrived at %v (call error: %v)",
-						op, n, ref, b.N, label, want, b.urls[want], arrived, err),
-						map[string]interface{}{"upstream": n, "shard": ref, "N": b.N, "table": b.table, "servers": b.urls, "arrivedAt": arrived, "phase": label, "shardCountsAnnounced": shardCounts})
-					continue
+				if odd[n] {
+					r.Count("gw_odd_names_judged", 1)
 				}
-				if err != nil {
-					// the addressed server is the one the table names; if it refuses, the two sides disagree on the shard
-					if strings.Contains(err.Error(), "leader is") {
-						r.Violation("C13/agreement/named-leader-refuses/"+op, fmt.Sprintf("%s for upstream %q (shard %d of %d by FNV-1a/32) was addressed to the server the table names (%s) and that server refused: %v", op, n, ref, b.N, b.urls[want], err),
-							map[string]interface{}{"upstream": n, "shard": ref, "N": b.N, "error": err.Error()})
-					} else {
-						r.Count("gw_call_errors_other", 1)
+				if gi > 0 {
+					r.Count("gw_second_gateway_names_judged", 1)
+				}
+				ref := refShard(n, b.N)
+				sid, err := b.cs.ShardIDFor(n)
+				r.Eval(1)
+				if err != nil || sid != ref {
+					r.Violation("C13/gateway/shard-id-differs/"+phase, fmt.Sprintf("ClientSets.ShardIDFor(%q) = %d (err %v) while the limiter fleet announces %d shards (%s; shard counts announced so far %v), FNV-1a/32 mod N = %d", n, sid, err, b.N, label, shardCounts, ref),
+						map[string]interface{}{"name": n, "N": b.N, "ShardIDFor": sid, "reference": ref, "phase": label, "shardCountsAnnounced": shardCounts})
+				}
+				want := b.table[ref]
+				for _, op := range []string{"allocate", "acquire"} {
+					seq++
+					arrived, err, rerr := b.call(op, n, seq)
+					if rerr != nil {
+						r.Count("gw_client_unresolved", 1)
+						continue
 					}
-				} else {
-					r.Count("gw_calls_served_by_leader", 1)
+					r.Count("gw_requests_judged", 1)
+					r.Distinct(vkit.Hash64("gw", label, n, op))
+					if len(arrived) != 1 || arrived[0] != want {
+						r.Violation("C13/gateway/request-at-wrong-server/"+phase+"/"+op, fmt.Sprintf("%s for upstream %q (shard %d of %d, %s): the leader table names server %d (%s), the request arrived at %v (call error: %v)",
+							op, n, ref, b.N, label, want, b.urls[want], arrived, err),
+							map[string]interface{}{"upstream": n, "shard": ref, "N": b.N, "table": b.table, "servers": b.urls, "arrivedAt": arrived, "phase": label, "shardCountsAnnounced": shardCounts})
+						continue
+					}
+					if err != nil {
+						// the addressed server is the one the table names; if it refuses, the two sides disagree on the shard
+						if strings.Contains(err.Error(), "leader is") {
+							r.Violation("C13/agreement/named-leader-refuses/"+op, fmt.Sprintf("%s for upstream %q (shard %d of %d by FNV-1a/32) was addressed to the server the table names (%s) and that server refused: %v", op, n, ref, b.N, b.urls[want], err),
+								map[string]interface{}{"upstream": n, "shard": ref, "N": b.N, "error": err.Error()})
+						} else {
+							r.Count("gw_call_errors_other", 1)
+						}
+					} else {
+						r.Count("gw_calls_served_by_leader", 1)
+					}
 				}
 			}
 		}
@@ -276,27 +306,42 @@ func gatewaySide(r *vkit.R, g *vkit.Rand) {
 		b.table[s] = to
 		r.Count("gw_moves", 1)
 		// until the gateway has fetched the new table it knows the old leader: both are acceptable, nothing else is
+		movedFor := make([]bool, len(gws))
 		converged := vkit.WaitFor(20*time.Second, func() bool {
-			seq++
-			arrived, err, rerr := b.call("allocate", probe, seq)
-			if rerr != nil {
-				return false
-			}
-			r.Count("gw_requests_during_move", 1)
-			for _, a := range arrived {
-				if a != from && a != to {
-					r.Violation("C13/gateway/request-at-wrong-server/during-move", fmt.Sprintf("while shard %d moved from server %d to %d a request for upstream %q arrived at server %d", s, from, to, probe, a),
-						map[string]interface{}{"upstream": probe, "shard": s, "from": from, "to": to, "arrivedAt": arrived})
+			defer func() { b.cs = gws[0] }()
+			allMoved := true
+			for gi, gw := range gws {
+				if movedFor[gi] {
+					continue
 				}
-				if a == from && err != nil && strings.Contains(err.Error(), b.urls[to]) {
-					r.Count("gw_old_leader_refusal_names_new_leader", 1)
+				b.cs = gw
+				if !func() bool {
+					seq++
+					arrived, err, rerr := b.call("allocate", probe, seq)
+					if rerr != nil {
+						return false
+					}
+					r.Count("gw_requests_during_move", 1)
+					for _, a := range arrived {
+						if a != from && a != to {
+							r.Violation("C13/gateway/request-at-wrong-server/during-move", fmt.Sprintf("while shard %d moved from server %d to %d a request for upstream %q arrived at server %d", s, from, to, probe, a),
+								map[string]interface{}{"upstream": probe, "shard": s, "from": from, "to": to, "arrivedAt": arrived})
+						}
+						if a == from && err != nil && strings.Contains(err.Error(), b.urls[to]) {
+							r.Count("gw_old_leader_refusal_names_new_leader", 1)
+						}
+					}
+					return len(arrived) == 1 && arrived[0] == to
+				}() {
+					allMoved = false
+				} else {
+					movedFor[gi] = true
 				}
 			}
-			if len(arrived) == 1 && arrived[0] == to {
-				return true
+			if !allMoved {
+				time.Sleep(50 * time.Millisecond)
 			}
-			time.Sleep(50 * time.Millisecond)
-			return false
+			return allMoved
 		})
 		if !converged {
 			r.Inconclusive("gateway side: requests did not reach the new leader within the watchdog after a leadership move")
@@ -309,7 +354,7 @@ func gatewaySide(r *vkit.R, g *vkit.Rand) {
 	// the fleet is re-deployed with another shard count (grow, then shrink; thorough: more). Every name above was looked
 	// up under the earlier count(s); once the gateway has synced the new server info the mapping must depend on the
 	// name and the NEW N only.
-	changes := r.N(2, 5)
+	changes := r.N(4, 7)
 	probeNo := 0
 	fresh := func(want func(string) bool) string { // a name never looked up before
 		for {
@@ -328,6 +373,11 @@ func gatewaySide(r *vkit.R, g *vkit.Rand) {
 			newN = oldN + g.Range(1, 3)
 		case c == 1:
 			newN = g.Range(2, oldN-1)
+		case c == 2:
+			newN = 1 // a single shard: every name maps to shard 0
+			r.Count("gw_shard_count_one", 1)
+		case c == 3:
+			newN = g.Range(2, 4)
 		default:
 			for newN = g.Range(2, 8); newN == oldN; newN = g.Range(2, 8) {
 			}
@@ -344,40 +394,61 @@ func gatewaySide(r *vkit.R, g *vkit.Rand) {
 		// the new N; (b) for every shard of the new deployment a never-seen name of that shard is mapped to it and its
 		// request arrives at the new leader. Until then requests may go by the old or the new table (not judged). A new
 		// probe name is used for every poll, so that nothing the gateway may remember about a name can hide the new N.
-		sawNewN := false
-		done := make([]bool, newN)
+		convFor := make([]bool, len(gws))
+		sawNewNFor := make([]bool, len(gws))
+		doneFor := make([][]bool, len(gws))
+		for gi := range doneFor {
+			doneFor[gi] = make([]bool, newN)
+		}
 		converged := vkit.WaitFor(20*time.Second, func() bool {
-			if !sawNewN {
-				n := fresh(func(x string) bool { return refShard(x, oldN) != refShard(x, newN) })
-				if sid, err := b.cs.ShardIDFor(n); err == nil && sid == refShard(n, newN) {
-					sawNewN = true
-				}
-			}
-			all := sawNewN
-			for s := 0; s < newN; s++ {
-				if done[s] {
+			defer func() { b.cs = gws[0] }()
+			every := true
+			for gi, gw := range gws {
+				if convFor[gi] {
 					continue
 				}
-				s := s
-				n := fresh(func(x string) bool { return refShard(x, newN) == s })
-				sid, err := b.cs.ShardIDFor(n)
-				if err != nil || sid != s {
-					all = false
-					continue
-				}
-				seq++
-				arrived, _, rerr := b.call("allocate", n, seq)
-				r.Count("gw_requests_during_shard_count_change", 1)
-				if rerr == nil && len(arrived) == 1 && arrived[0] == b.table[s] {
-					done[s] = true
+				b.cs = gw
+				sawNewN, done := sawNewNFor[gi], doneFor[gi]
+				if func() bool {
+					if !sawNewN {
+						n := fresh(func(x string) bool { return refShard(x, oldN) != refShard(x, newN) })
+						if sid, err := b.cs.ShardIDFor(n); err == nil && sid == refShard(n, newN) {
+							sawNewN = true
+						}
+					}
+					all := sawNewN
+					for s := 0; s < newN; s++ {
+						if done[s] {
+							continue
+						}
+						s := s
+						n := fresh(func(x string) bool { return refShard(x, newN) == s })
+						sid, err := b.cs.ShardIDFor(n)
+						if err != nil || sid != s {
+							all = false
+							continue
+						}
+						seq++
+						arrived, _, rerr := b.call("allocate", n, seq)
+						r.Count("gw_requests_during_shard_count_change", 1)
+						if rerr == nil && len(arrived) == 1 && arrived[0] == b.table[s] {
+							done[s] = true
+						} else {
+							all = false
+						}
+					}
+					sawNewNFor[gi] = sawNewN
+					return all
+				}() {
+					convFor[gi] = true
 				} else {
-					all = false
+					every = false
 				}
 			}
-			if !all {
+			if !every {
 				time.Sleep(50 * time.Millisecond)
 			}
-			return all
+			return every
 		})
 		if !converged {
 			r.Inconclusive(fmt.Sprintf("gateway side: the gateway did not pick up the new shard count %d -> %d within the watchdog", oldN, newN))
